@@ -222,6 +222,50 @@ func runC17(e *core.Env) error {
 			}
 		}
 	}
+	// 3b. eth.DecodeHex (filter arguments, pushed-down addresses): optional 0x/0X prefix, odd length padded
+	// on the left, every leading zero byte kept
+	{
+		alphabet := []string{"00", "0", "01", "ab", "F", "000", "0x", "x", "g", "7f"}
+		var ss []string
+		for _, pre := range []string{"", "0x", "0X", "0x0x", "00x"} {
+			ss = append(ss, pre)
+			for i := 0; i < e.N(40, 400); i++ {
+				s := pre
+				for k, n := 0, r.Intn(6); k < n; k++ {
+					s += core.Pick(r, alphabet)
+				}
+				ss = append(ss, s)
+			}
+			for _, n := range []int{1, 2, 19, 20, 32} { // zero-prefixed addresses / words
+				b := r.Bytes(n)
+				b[0] = 0
+				if n > 2 {
+					b[1] = 0
+				}
+				ss = append(ss, pre+hex.EncodeToString(b))
+			}
+		}
+		for _, s := range ss {
+			impl := core.Protect(func() string { return "ok " + core.Hex(eth.DecodeHex(s)) })
+			// independent reference
+			t := s
+			if len(t) >= 2 && t[0] == '0' && (t[1] == 'x' || t[1] == 'X') {
+				t = t[2:]
+			}
+			if len(t)%2 == 1 {
+				t = "0" + t
+			}
+			var ref []byte
+			for i := 0; i+1 < len(t); i += 2 {
+				hi, lo := strings.IndexByte("0123456789abcdef", lower(t[i])), strings.IndexByte("0123456789abcdef", lower(t[i+1]))
+				if hi < 0 || lo < 0 {
+					break
+				}
+				ref = append(ref, byte(hi*16+lo))
+			}
+			e.Add(core.Case{Op: "dechex " + core.Hex([]byte(s)), Impl: impl, Spec: "ok " + core.Hex(ref), Nontrivial: true, Tags: []string{"dechex"}})
+		}
+	}
 	// 4. bint
 	vals := append([]uint64{}, boundary...)
 	for i := 0; i < e.N(300, 5000); i++ {
@@ -276,4 +320,11 @@ func runC17(e *core.Env) error {
 		e.Add(core.Case{Op: "bdec " + core.Hex(b), Impl: fmt.Sprint(bint.Decode(b)), Spec: want.String(), Nontrivial: true, Tags: []string{"bdec"}})
 	}
 	return nil
+}
+
+func lower(c byte) byte {
+	if c >= 'A' && c <= 'F' {
+		return c + 32
+	}
+	return c
 }
